@@ -24,8 +24,8 @@ class C13(Prop):
             c = G.gen_case(rng)
             valid.append(self._strip(c))
             fs = G.faults(rng, c)
-            if tier == 'quick' and len(fs) > 4:
-                fs = rng.sample(fs, 4)
+            if tier == 'quick' and len(fs) > 5:
+                fs = rng.sample(fs, 5)
             faulty.extend(fs)
         yield 'valid', valid
         yield 'single-fault', faulty
